@@ -743,28 +743,33 @@ def r09_7(ctx, repo):
                     for x in ast.walk(l.iter)) for l in ast.walk(fn)):
                 # the request itself is walked: its order is R09.3's finding
                 n += 1
+            loops_ = []
             for l in ast.walk(fn):
-                if not isinstance(l, ast.For):
-                    continue
-                tests = [c for c in ast.walk(l) if isinstance(c, ast.Compare)
+                if isinstance(l, ast.For):
+                    loops_.append((l, l.target, l.iter, l))
+                if isinstance(l, ast.comprehension):
+                    loops_.append((l, l.target, l.iter, ast.Module(
+                        body=[ast.Expr(value=x) for x in l.ifs],
+                        type_ignores=[])))
+            for l, ltarget, liter, lbody in loops_:
+                tests = [c for c in ast.walk(lbody) if isinstance(
+                    c, ast.Compare)
                          and len(c.ops) == 1 and isinstance(
                              c.ops[0], (ast.In, ast.NotIn))
                          and U(c.comparators[0]) == 'parameter_names']
                 if not tests:
                     continue
-                src = l.iter
+                src = liter
                 if isinstance(src, ast.Call) and U(src.func) in (
                         'enumerate', 'zip') and src.args:
                     # the tested variable's source among the zipped args
-                    names = [U(x) for x in ast.walk(l.target)
-                             if isinstance(x, ast.Name)]
                     tv = U(tests[0].left)
                     args = src.args
                     if U(src.func) == 'enumerate':
                         src = args[0]
                     else:
-                        elts = l.target.elts if isinstance(
-                            l.target, ast.Tuple) else [l.target]
+                        elts = ltarget.elts if isinstance(
+                            ltarget, ast.Tuple) else [ltarget]
                         idx = [i for i, e in enumerate(elts) if U(e) == tv]
                         src = args[idx[0]] if idx and idx[0] < len(args) \
                             else args[0]
